@@ -835,6 +835,18 @@ class Compiler:
             elif isinstance(node.left, Identifier):
                 self._emit_store_variable(node.left.name)
                 self._emit(OpCode.POP)
+            elif isinstance(node.left, MemberExpression):
+                # for (obj.prop of ...) / for (obj[key] of ...), as in for-in:
+                # stack [..., iterator, value] -> obj, prop, value -> SET_PROP
+                self._compile_expression(node.left.object)
+                if node.left.computed:
+                    self._compile_expression(node.left.property)
+                else:
+                    idx = self._add_constant(node.left.property.name)
+                    self._emit(OpCode.LOAD_CONST, idx)
+                self._emit(OpCode.ROT3)
+                self._emit(OpCode.SET_PROP)
+                self._emit(OpCode.POP)
             else:
                 raise NotImplementedError(
                     f"Unsupported for-of left: {type(node.left).__name__}"
